@@ -160,7 +160,7 @@ fn set_upto_64bits_count() {
 // and the call does not panic. Bounded: two 9-byte buffers, EVERY offset_write, offset_read, len
 // and all contents (so up to two rounds of the 64-bit loop). Its job is to produce a concrete
 // counterexample when the unbounded Verus obligation fails.
-// NOT CONFIRMED under load (a 10-byte version did not finish in 20 min at 5x machine load): thorough tier.
+// NOT CONFIRMED: timed out at 3000 s (9-byte buffers) and at 1200 s (10-byte buffers) under 3-5x machine load: thorough tier.
 // @unit name=set_bits_pair props=C19 kind=bounded bound=buffers=9_bytes_all_offsets_and_lengths fns=set_bits,set_upto_64bits tier=thorough timeout=3000 mem=4
 #[kani::proof]
 #[kani::unwind(10)]
